@@ -109,6 +109,9 @@ func (d *distinctEngine) valueDistinct(f *ssa.Function, v ssa.Value, depth int) 
 		if mapKeySlice(f, x) || seenFilterSlice(f, x) {
 			return true
 		}
+		if src := d.filterOf(f, x, depth+1); src != nil {
+			return d.listDistinct(f, src, depth+1)
+		}
 		for _, e := range phiLeaves(x) {
 			if !d.valueDistinct(f, e, depth+1) {
 				return false
@@ -122,7 +125,16 @@ func (d *distinctEngine) valueDistinct(f *ssa.Function, v ssa.Value, depth int) 
 		return false
 	case *ssa.Call:
 		if builtinName(x) == "append" {
-			return mapKeySlice(f, x) || seenFilterSlice(f, x)
+			if mapKeySlice(f, x) || seenFilterSlice(f, x) {
+				return true
+			}
+			if src := d.filterOf(f, x, depth+1); src != nil {
+				return d.valueDistinct(f, src, depth+1)
+			}
+			return false
+		}
+		if parts := concatParts(x); parts != nil {
+			return d.disjointDistinct(f, parts, depth+1)
 		}
 		return d.callDistinct(f, x, depth)
 	case *ssa.Const:
@@ -132,6 +144,193 @@ func (d *distinctEngine) valueDistinct(f *ssa.Function, v ssa.Value, depth int) 
 		return true
 	}
 	return mapKeySlice(f, v) || seenFilterSlice(f, v)
+}
+
+// concatParts: v == slices.Concat(p1, p2, ...): the parts, else nil.
+func concatParts(c *ssa.Call) []ssa.Value {
+	g := calleeOf(c)
+	if g == nil || pkgOf(g) == nil || pkgOf(g).Path() != "slices" {
+		return nil
+	}
+	name := g.Name()
+	if o := g.Origin(); o != nil {
+		name = o.Name()
+	}
+	if name != "Concat" || len(c.Call.Args) != 1 {
+		return nil
+	}
+	vals, ok := sliceLiteral(c.Call.Args[0])
+	if !ok || len(vals) == 0 {
+		return nil
+	}
+	return vals
+}
+
+// filterOf: v is built from an empty list by appending, at most once per
+// iteration, the current element of a range loop over a list L (a filter of
+// L): returns L.  The result is a sub-sequence of L, so it is duplicate-free
+// whenever L is and shares no element with anything L is disjoint from.
+func (d *distinctEngine) filterOf(f *ssa.Function, v ssa.Value, depth int) ssa.Value {
+	ai := appendChain(v)
+	if len(ai.Appends) != 1 {
+		return nil
+	}
+	for _, b := range ai.Bases {
+		if !isEmptySliceBase(b) && !isNilConst(b) {
+			return nil
+		}
+	}
+	ap := ai.Appends[0]
+	elems, spread := appendedElems(ap)
+	if spread != nil || len(elems) != 1 {
+		return nil
+	}
+	for _, sr := range findSliceRanges(f) {
+		if !sr.blocks()[ap.Block()] || !sr.isElem(resolve(elems[0])) {
+			continue
+		}
+		// the append is not inside a loop nested in this one (at most once per element)
+		nested := false
+		for _, in := range findSliceRanges(f) {
+			if in != sr && sr.blocks()[in.Header] && in.blocks()[ap.Block()] {
+				nested = true
+			}
+		}
+		for _, in := range findMapRanges(f) {
+			if sr.blocks()[in.Header] && in.blocks()[ap.Block()] {
+				nested = true
+			}
+		}
+		if nested {
+			return nil
+		}
+		return sr.X
+	}
+	return nil
+}
+
+// filterSource: the list v is a sub-sequence of (v itself, or the source of
+// the filter loop / filtering helper that built it), followed transitively.
+func (d *distinctEngine) filterSources(f *ssa.Function, v ssa.Value, depth int) []ssa.Value {
+	out := []ssa.Value{}
+	for i := 0; i < 6 && v != nil; i++ {
+		v = resolve(v)
+		out = append(out, v)
+		var next ssa.Value
+		switch x := v.(type) {
+		case *ssa.Phi:
+			if src := d.filterOf(f, x, depth+1); src != nil {
+				next = src
+			}
+		case *ssa.Call:
+			if builtinName(x) == "append" {
+				next = d.filterOf(f, x, depth+1)
+			} else if g := calleeOf(x); g != nil && d.w.InModule(g) {
+				if pi := d.fnFiltersParam(g); pi >= 0 && pi < len(x.Call.Args) {
+					next = x.Call.Args[pi]
+				}
+			}
+		}
+		v = next
+	}
+	return out
+}
+
+// fnFiltersParam: every return of g is a filter (sub-sequence) of one list
+// parameter: its index, else -1.
+func (d *distinctEngine) fnFiltersParam(g *ssa.Function) int {
+	if g == nil || g.Blocks == nil {
+		return -1
+	}
+	pi := -1
+	for _, ret := range returnsOf(g) {
+		if len(ret.Results) != 1 {
+			return -1
+		}
+		src := d.filterOf(g, ret.Results[0], 0)
+		if src == nil {
+			return -1
+		}
+		i := paramIndex(g, resolve(src))
+		if i < 0 || (pi >= 0 && pi != i) {
+			return -1
+		}
+		pi = i
+	}
+	return pi
+}
+
+// excludes: no element of list v equals an element of list a, because v is a
+// sub-sequence of common.Difference(_, a) (whose shape SETOP-SHAPE decides).
+func (d *distinctEngine) excludes(f *ssa.Function, v, a ssa.Value, depth int) bool {
+	for _, s := range d.filterSources(f, v, depth) {
+		if c, ok := s.(*ssa.Call); ok && calleeIs(c, modPath+"/common", "Difference") && len(c.Call.Args) == 2 && equivValue(c.Call.Args[1], a) {
+			return true
+		}
+		if ph, ok := s.(*ssa.Phi); ok && d.filterOf(f, ph, depth+1) == nil {
+			all := len(ph.Edges) > 0
+			for _, e := range phiLeaves(ph) {
+				if isNilConst(resolve(e)) || isEmptySliceBase(resolve(e)) {
+					continue
+				}
+				if resolve(e) == ssa.Value(ph) || !d.excludes(f, e, a, depth+1) {
+					all = false
+				}
+			}
+			if all {
+				return true
+			}
+		}
+	}
+	return false
+}
+
+// disjointDistinct: the concatenation of the parts is duplicate-free: each
+// part is, and every later part excludes every earlier one.
+func (d *distinctEngine) disjointDistinct(f *ssa.Function, parts []ssa.Value, depth int) bool {
+	if depth > 8 {
+		return false
+	}
+	for i, p := range parts {
+		if !d.listDistinct(f, p, depth+1) {
+			return false
+		}
+		for j := 0; j < i; j++ {
+			if !d.excludes(f, p, parts[j], depth+1) && !d.excludes(f, parts[j], p, depth+1) {
+				return false
+			}
+		}
+	}
+	return true
+}
+
+// listDistinct: valueDistinct, or a filter (transitively) of a duplicate-free list.
+func (d *distinctEngine) listDistinct(f *ssa.Function, v ssa.Value, depth int) bool {
+	if depth > 8 {
+		return false
+	}
+	v = resolve(v)
+	if ph, ok := v.(*ssa.Phi); ok && d.filterOf(f, ph, depth+1) == nil && !mapKeySlice(f, ph) && !seenFilterSlice(f, ph) {
+		// a choice between lists
+		for _, e := range phiLeaves(ph) {
+			if resolve(e) == ssa.Value(ph) || !d.listDistinct(f, e, depth+1) {
+				return false
+			}
+		}
+		return true
+	}
+	for _, s := range d.filterSources(f, v, depth) {
+		if _, isPhi := s.(*ssa.Phi); isPhi && s != v {
+			if d.listDistinct(f, s, depth+1) {
+				return true
+			}
+			continue
+		}
+		if d.valueDistinct(f, s, depth+1) {
+			return true
+		}
+	}
+	return false
 }
 
 // seenFilterSlice: every append into v is confined to the miss branch of a
@@ -220,6 +419,9 @@ func (d *distinctEngine) callDistinct(f *ssa.Function, c *ssa.Call, depth int) b
 	}
 	if d.fnReturnsDistinct(g) {
 		return true
+	}
+	if pi := d.fnFiltersParam(g); pi >= 0 && pi < len(c.Call.Args) {
+		return d.listDistinct(f, c.Call.Args[pi], depth+1)
 	}
 	// element-wise notation conversion of a duplicate-free list whose IDs have
 	// hZoom == vZoom (established by WRAPPER): still duplicate-free
